@@ -6,6 +6,7 @@ import NeatviVerif.Drive.Regex
 import NeatviVerif.Drive.Ex
 import NeatviVerif.Drive.ExJudge
 import NeatviVerif.Drive.Vi
+import NeatviVerif.Drive.ViSpec
 /-!
 Line-protocol driver.  Reads case lines (input + the implementation's observables, as printed by
 the C harnesses) on stdin; for every line recomputes the model's observables and evaluates the
@@ -36,7 +37,8 @@ def judge (stream : String) (kv : KV) : Option Verdict :=
   | "ex02" => some (ExJ.judge 2 kv)
   | "ex03" => some (ExJ.judge 3 kv)
   | "ex20" => some (ExJ.judge 20 kv)
-  | "vi" => some (ViD.judge 0 kv)
+  | "vi" => some (ViSpec.judge 0 kv)
+  | "vi07" => some (ViSpec.judge 7 kv)
   | "lops04" => some (LbufD.judgeLops 4 kv)
   | "lops02" => some (LbufD.judgeLops 2 kv)
   | "rdwr01" => some (LbufD.judgeRdwr 1 kv)
